@@ -219,6 +219,7 @@ def run(prog: Program, col: Collector, tier: str, refs: Optional[Refs] = None, c
     from . import shapes
     shapes.r_two_operand_shapes_broadcast(prog, col, refs, cat, "R06.16")
     shapes.r_ellipsis_fill(prog, col, refs, cat, "R06.17")
+    shapes.r_shape_only_ops_keep_dtype(prog, col, refs, cat, "R06.19")
     col.rule("R06.18", "a variable bound in one rebuilt element of a tuple of terms is tested against the elements that are copied (else it stays an undeclared input)", floor=1)
     from . import c05 as _c05
     _c05._binder_in_one_element(prog, col, refs, cat)
